@@ -178,10 +178,13 @@ let project (proj : string) (o : outcome) : string =
      | _ -> "gate:pass")
   | _ -> outcome_str o
 
-let marshal_hex (m : slim) : string =
-  match marshal_gen m with
-  | None -> "PANIC"
-  | Some b -> hex_of_bytes b
+let marshal_hex (i : inner_state) : string =
+  match i with
+  | IPartial -> "?"
+  | IMsg m ->
+    match marshal_gen m with
+    | None -> "PANIC"
+    | Some b -> hex_of_bytes b
 
 (* ---------- main loop ---------- *)
 let () =
@@ -202,7 +205,7 @@ let () =
          let stream = (match split_ws (next ()) with ["X"; h] -> bytes_of_hex h | _ -> failwith "X expected") in
          (match split_ws (next ()) with ["E"] -> () | _ -> failwith "E expected");
          pr "wf %b\n" (wf_slim m);
-         pr "ser %s\n" (marshal_hex m);
+         pr "ser %s\n" (marshal_hex (IMsg m));
          pr "size %s\n" (hex_of_n (marshal_size m));
          let body = (match read_header stream with
              | ROk (_, rest) -> Some rest
@@ -218,14 +221,18 @@ let () =
            (match o with
             | Some (OLoaded _ as oc) ->
               pr "load %s\n" (outcome_str oc);
-              List.iter (fun l -> pr "%s\n" l) (slim_lines st.i_inner);
+              (match st.i_inner with
+               | IMsg mi -> List.iter (fun l -> pr "%s\n" l) (slim_lines mi)
+               | IPartial -> pr "partial\n");
               pr "remarshal %s\n" (marshal_hex st.i_inner)
             | Some oc -> pr "load %s\n" (outcome_str oc)
             | None -> pr "load ?\n")
          end
        (* --- arbitrary body bytes through the parser (c05) --- *)
-       | ["F"; cid; h] ->
+       | ["F"; cid] ->
          pr "C %s\n" cid;
+         let h = (match split_ws (next ()) with ["X"; h] -> h | _ -> failwith "X expected") in
+         (match split_ws (next ()) with ["E"] -> () | _ -> failwith "E expected");
          (match parse_slim (bytes_of_hex h) with
           | None -> pr "parse err\n"
           | Some m ->
@@ -259,6 +266,7 @@ let () =
        (* --- constants (c07) --- *)
        | ["K"; cid] ->
          pr "C %s\n" cid;
+         (match split_ws (next ()) with ["E"] -> () | _ -> failwith "E expected");
          pr "specs-in-fragment %b\n" (specs_in_fragment compat_gen);
          pr "version %s\n" (hex_of_bytes cur_gen);
          pr "compatible %s\n" (String.concat "," (List.map hex_of_bytes compat_gen))
